@@ -213,6 +213,7 @@ def run_case(g, thorough: bool) -> Case:
     introspected = getattr(g, "introspected", False)
     gsm = g.gsm_harness if introspected else gs
     cs.d("schema_source", "introspection" if introspected else "sdl")
+    cs.d("config", f"snake={'on' if snake else 'off'},custom_scalar={'configured' if scalars_cfg else 'plain'}")
     ssx, csx = ci.schema_sx(gsm), ci.customs_sx(scalars_cfg)
 
     def emitted_literal(tn_, fn_):
@@ -284,6 +285,7 @@ def run_case(g, thorough: bool) -> Case:
             cmds.append([Sym("coerce"), ssx, tsx, json_sx(v)])
             cmds.append([Sym("validate"), ssx, csx, snake, tsx, json_sx(v)])
             cmds.append([Sym("rename"), ssx, snake, tsx, json_sx(v)])
+            cmds.append([Sym("canon"), ssx, tsx, json_sx(v)])
     res = model.batch("C06", cmds, jobs=1)
     for r in res:
         if model.is_error(r):
@@ -450,6 +452,13 @@ def run_case(g, thorough: bool) -> Case:
                     if ra["ok"] or ra["exc"][0] != want:
                         cs.broken("K2 validate vs pydantic",
                                   f"{tn} {label} {v!r}: model {mres!r}, pydantic {ra.get('exc') or 'ok'}")
+                # K3e: the converse on the real code, on values in canonical form (Gql/InCoerce.v canon): what the real
+                # pydantic class accepts, graphql-core's coercion accepts too
+                if res[base + 3] == "t" and not scalars_cfg:
+                    cs.d("canon_values", label)
+                    if row["alias"]["ok"] and not lib_ok and not (iv.reachable_inputs(t, v) & collide):
+                        cs.violation(f"canonical-form value accepted by the generated model but refused by the schema: "
+                                     f"input {tn} ({label}): {lib_v}", input_type=tn, value=v, observed=row["alias"].get("dump"))
                 # K3a / K3b: the property itself, on the real classes, against the library's verdict
                 canonical = label in CANONICAL
                 for how in ("alias", "name"):
